@@ -174,6 +174,11 @@ impl Gen {
         matches!(self.profile, Profile::Core | Profile::Barrier | Profile::Weak | Profile::Fault)
     }
 
+    /// profiles that allocate `dynnode` objects (pointers traced through the `DynCollect` adapter)
+    fn dyn_kinds(&self) -> bool {
+        matches!(self.profile, Profile::Core | Profile::Weak | Profile::Barrier | Profile::Finalize | Profile::Reclaim | Profile::Multi | Profile::Fault)
+    }
+
     /// object `i` can take a store now: it has slots, is undestructed, and — a `OnceCell` — is empty
     fn can_adopt(sh: &Shadow, i: u32) -> bool {
         let o = &sh.objs[i as usize];
@@ -327,6 +332,126 @@ impl Gen {
             self.push(ai, Op::Upgrade(c));
         }
         self.push(ai, Op::Leave { panic: false });
+        self.cb_stack.clear();
+    }
+
+    /// Script (C10 / C11): trace faults that hit *after* other objects of the same cycle were traced,
+    /// observed with a clearly positive debt.  Dyadic pacing with mark / trace factors > 0, several
+    /// tracing nodes hung from the root, `adjust_debt` far above the wake-up amount, then repeated
+    /// `finish_marking` / `mark_debt` with the fault at trace index k >= 1 (j varied), then a
+    /// fault-free finish.  A collection call that unwinds must leave the debt where it was or lower
+    /// and the trace-credit counter at the number of completed traces.
+    fn fault_credit_script(&mut self, w: &World, ai: usize) {
+        let n = w.arenas[ai].shadow.objs.len() as u32;
+        let tf = [dy(1, 1), dy(1, 2), dy(3, 3), dy(1, 0)][self.rng.below(4)];
+        let mf = [dy(1, 2), dy(1, 3), dy(1, 1)][self.rng.below(3)];
+        let p = PacingSpec { sleep: dy(1, 1), min_sleep: 1 + self.rng.below(4), mark: mf, trace: tf, keep: dy(1, 4), drop: dy(1, 2), free: dy(1, 2) };
+        self.push(ai, Op::Pacing(p));
+        // root slots 0..=3 hold nodes, each possibly with a child (all NEEDS_TRACE)
+        self.push(ai, Op::Enter(Cb::MutateRoot));
+        let mut id = n;
+        let tops = 3 + self.rng.below(2);
+        for r in 0..tops {
+            let child = if self.rng.chance(1, 2) {
+                self.push(ai, Op::Alloc { kind: Kind::Node, slots: vec![None, None, None] });
+                id += 1;
+                Some(SP::S(id - 1))
+            } else {
+                None
+            };
+            let k = self.rng.below(3);
+            let mut slots = vec![None, None, None];
+            slots[k] = child;
+            self.push(ai, Op::Alloc { kind: Kind::Node, slots });
+            self.push(ai, Op::RootStore { i: r, v: Some(SP::S(id)) });
+            id += 1;
+        }
+        self.push(ai, Op::Leave { panic: false });
+        // a known starting point: asleep, nothing counted
+        self.push(ai, Op::Collect { method: Method::FinishCycle, cont: Cont::Drop, fault: None });
+        let extra = 64 + self.rng.below(64) as i64;
+        self.push(ai, Op::Adjust(dy(extra, 0)));
+        let rounds = 3 + self.rng.below(4);
+        for round in 0..rounds {
+            let method = if self.rng.chance(1, 2) { Method::FinishMarking } else { Method::MarkDebt };
+            // first some objects are traced to completion before the fault (k >= 1); in the later
+            // calls the very first trace mostly faults (k = 0): such a call completes no work at all,
+            // so whatever it does to the debt is the fault path's own doing
+            let k = if round == 0 { 1 + self.rng.below(3) } else { [0, 0, 0, 1, 2][self.rng.below(5)] };
+            let j = self.rng.below(5);
+            self.push(ai, Op::Collect { method, cont: Cont::Drop, fault: Some((k, j)) });
+        }
+        self.push(ai, Op::Collect { method: Method::FinishMarking, cont: Cont::Drop, fault: None });
+        self.push(ai, Op::Collect { method: Method::FinishCycle, cont: Cont::Drop, fault: None });
+        self.cb_stack.clear();
+    }
+
+    /// Script (C09 / C08): one `collect_debt` that enters mid-cycle with a large burst outstanding,
+    /// rolls over the end of that cycle and runs the next one as an atomic unit; afterwards allocate
+    /// one by one with a debt-driven call after each — the collector must sleep through
+    /// max(min_sleep, sleep_factor x survivors) of them.  Stop-the-world pacing or default-like
+    /// dyadic pacing.
+    fn rollover_script(&mut self, w: &World, ai: usize) {
+        let sh = &w.arenas[ai].shadow;
+        let n = sh.objs.len() as u32;
+        let reach = sh.reachable();
+        let held = reach.len() + sh.weakly_held(&reach).len();
+        let stw = self.rng.chance(1, 2);
+        let ms = 2 + self.rng.below(3);
+        let p = if stw {
+            PacingSpec { sleep: dy(1, 0), min_sleep: ms, mark: dy(0, 0), trace: dy(0, 0), keep: dy(0, 0), drop: dy(0, 0), free: dy(0, 0) }
+        } else {
+            PacingSpec { sleep: dy(1, 1), min_sleep: ms, mark: dy(1, 3), trace: dy(3, 3), keep: dy(1, 4), drop: dy(1, 2), free: dy(1, 2) }
+        };
+        self.push(ai, Op::Pacing(p));
+        let s = 2 + self.rng.below(3);
+        self.push(ai, Op::Enter(Cb::MutateRoot));
+        let ri = self.rng.below(4);
+        let replaced = match sh.root.get(ri) {
+            Some(Some(SP::S(_))) => 1,
+            _ => 0,
+        };
+        let mut prev: SSlot = None;
+        for k in 0..s as u32 {
+            self.push(ai, Op::Alloc { kind: Kind::Node, slots: vec![prev, None, None] });
+            prev = Some(SP::S(n + k));
+        }
+        self.push(ai, Op::RootStore { i: ri, v: prev });
+        self.push(ai, Op::Leave { panic: false });
+        self.push(ai, Op::Collect { method: Method::FinishCycle, cont: Cont::Drop, fault: None });
+        // park mid-cycle
+        match self.rng.below(4) {
+            0 => self.push(ai, Op::Collect { method: Method::FinishMarking, cont: Cont::Drop, fault: None }),
+            1 => self.push(ai, Op::Collect { method: Method::FinishMarking, cont: Cont::Sweep, fault: None }),
+            2 => {
+                self.push(ai, Op::Adjust(dy(16, 0)));
+                self.push(ai, Op::Collect { method: Method::MarkDebt, cont: Cont::Drop, fault: None });
+            }
+            _ => {
+                self.push(ai, Op::Adjust(dy(16, 0)));
+                self.push(ai, Op::Collect { method: Method::MarkDebt, cont: Cont::Sweep, fault: None });
+            }
+        }
+        // survivors (upper estimate) and the sleep they buy
+        let surv = held + s - replaced.min(held);
+        let sleep = if stw { surv } else { surv.div_ceil(2) };
+        let wake = sleep.max(ms);
+        // the burst: garbage, far more than the sleep amount plus the work of a whole cycle
+        let burst = 4 * wake + 2 * surv + 8;
+        self.push(ai, Op::Enter(Cb::Mutate));
+        for _ in 0..burst {
+            self.push(ai, Op::Alloc { kind: Kind::Leaf, slots: vec![] });
+        }
+        self.push(ai, Op::Leave { panic: false });
+        self.push(ai, Op::Collect { method: Method::CollectDebt, cont: Cont::Drop, fault: None });
+        // one by one, until (past) the wake-up amount
+        for _ in 0..wake + 2 {
+            self.push(ai, Op::Enter(Cb::Mutate));
+            self.push(ai, Op::Alloc { kind: Kind::Leaf, slots: vec![] });
+            self.push(ai, Op::Leave { panic: false });
+            let method = if self.rng.chance(1, 2) { Method::CollectDebt } else { Method::CycleDebt };
+            self.push(ai, Op::Collect { method, cont: Cont::Drop, fault: None });
+        }
         self.cb_stack.clear();
     }
 
@@ -539,7 +664,7 @@ impl Gen {
                 let id = sh.objs.len() as u32;
                 let hk = sh.objs[h as usize].kind;
                 let k = self.rng.below(hk.nslots());
-                let tk = if self.lock_kinds() { [Kind::Node, Kind::Node, Kind::RefNode, Kind::LockCell, Kind::OnceCell][self.rng.below(5)] } else { Kind::Node };
+                let tk = if self.lock_kinds() { [Kind::Node, Kind::DynNode, Kind::RefNode, Kind::LockCell, Kind::OnceCell][self.rng.below(5)] } else if self.dyn_kinds() && self.rng.chance(1, 3) { Kind::DynNode } else { Kind::Node };
                 self.push(ai, Op::Alloc { kind: tk, slots: vec![None; tk.alloc_args()] });
                 self.push(ai, Op::Downgrade(id));
                 self.emit_store(ai, hk, h, k, Some(SP::W(id)), 0, None);
@@ -607,6 +732,8 @@ impl Gen {
                 } else {
                     Kind::Node
                 };
+                // trait-object holders (`dyn_collect!`), wherever the graph-shaped profiles allocate nodes
+                let kind = if kind == Kind::Node && self.dyn_kinds() && self.rng.chance(1, 4) { Kind::DynNode } else { kind };
                 let slots: Vec<SSlot> = (0..kind.alloc_args()).map(|_| if self.rng.chance(1, 2) { None } else { self.slot_value(w, ai, weak_bias) }).collect();
                 self.push(ai, Op::Alloc { kind, slots });
                 if kind == Kind::OnceCell && self.rng.chance(if self.profile == Profile::Fault { 3 } else { 1 }, 4) {
@@ -1069,6 +1196,23 @@ impl Gen {
         }
         if self.profile == Profile::Soak {
             return self.soak_round(w, ai);
+        }
+        // C10 / C11: faulted traces after other objects were traced, seen with positive debt (needs the
+        // fault index to mean the same on both sides: no empty OnceLock cell around)
+        if matches!(self.profile, Profile::Fault | Profile::Metrics | Profile::Pacing)
+            && self.emitted + 20 < self.max_ops
+            && self.rng.chance(1, if self.profile == Profile::Pacing { 40 } else { 14 })
+            && !w.arenas[ai].shadow.objs.iter().any(|o| o.kind == Kind::OnceCell && o.freed == 0 && o.dropped == 0 && o.slots[0].is_none())
+        {
+            return self.fault_credit_script(w, ai);
+        }
+        // C09 / C08: collect_debt rolling over a cycle end, then the sleep it must honour
+        if matches!(self.profile, Profile::Pacing | Profile::Protocol)
+            && self.emitted * 2 < self.max_ops
+            && w.arenas[ai].shadow.objs.iter().filter(|o| o.freed == 0).count() <= 10
+            && self.rng.chance(1, 10)
+        {
+            return self.rollover_script(w, ai);
         }
         if self.lock_kinds() && self.emitted + 25 < self.max_ops && w.arenas[ai].phase != b'S' && self.rng.chance(1, 10) {
             return self.lock_script(w, ai);
